@@ -95,7 +95,7 @@ bool PathCanonicalize(char *buffer, const char *path) {
 		}
 
 		// Handle *\.
-		if (src[-1] == '\\' && src[1] == '\0') {
+		if (src != path && src[-1] == '\\' && src[1] == '\0') {
 			dst--; /* Remove \ */
 			src++; /* Skip . */
 		}
